@@ -58,7 +58,20 @@ RULE = (
     "default / default_factory, plain class or real @dataclass or a class used before); each definition is exercised "
     "by several fresh instances, each with a positional/keyword split at construction and another at call (all valid "
     "split pairs for arity <= 3 in quick, <= 4 in thorough), plus clashes, unknown keys, too many positionals, missing "
-    "arguments and a repeated call; non-trivial = at least one run returned a value"
+    "arguments and a repeated call; DEFAULT OBJECTS: parameter defaults, dataclass field defaults, products of default "
+    "factories, defaults of a dictionary specification and supplied values are also drawn from a pool of 32 module-level "
+    "objects for which equality, identity and copying differ (object() sentinels, marker instances, __eq__ always False / "
+    "always True, objects refusing copy/deepcopy/pickle, objects whose copy is not equal to them, equal-by-value records, "
+    "a NOT_DATA look-alike, shared mutable list/dict/set/bytearray/nested list, NaN, enum members, classes, functions, a "
+    "lambda, Ellipsis; two of every identity-compared kind), named in the generated source so that bare twin and node "
+    "function share ONE default object; their tokens are given by `is`; bodies of the form `A if p is _DEFAULT else B`; "
+    "a caller passes the very default object, a look-alike of the same kind, or an unrelated object; SIZES PAST ONE DIGIT "
+    "in both tiers: inputs_to_list / list_to_outputs of size 10, 11, 12, 21, 100, 101, inputs_to_dict with generated keys "
+    "(k0..k99, shuffled or not) 10..100, tables of 10..101 rows, dataclasses with 10..21 (thorough 100) fields x1..xN, "
+    "functions with 10..21 (30) parameters x1..xN, positional/keyword splits on both sides of position 10 and keywords "
+    "written in reverse or shuffled order; CLASS REGISTRY: a dictionary specification preceded by another one of equal "
+    "hash (-1/-2, 1/True, 0/False), a dataclass preceded by another one of the same __name__; non-trivial = at least one "
+    "run returned a value"
 )
 TRUSTED = [
     "model FuncWrap transcribes ScrapesIO._build_inputs_preview/_build_outputs_preview/_validate*, "
@@ -70,13 +83,23 @@ TRUSTED = [
     "an INPUT of the model, computed by the harness from the generator's own description of the source it wrote, "
     "independently of the library; that the library reads the same off the real file is checked differentially only",
     "the reference binding in the oracle is Python's own inspect.Signature.bind_partial + calling the bare twin function",
-    "which of the two Cfg variants (dataclass re-cast, cached transformer return) the tree shows is decided by two fixed "
-    "probes of the tree, not by the case under test",
+    "which of the Cfg variants (dataclass re-cast, cached transformer return, dictionary class by hash, dataclass node "
+    "class by name) the tree shows is decided by four fixed probes of the tree, not by the case under test",
+    "identity of objects is observed with python's `is` against the pool of nodes_c17 (token `@k.kind` = IS pool object k, "
+    "`~k.kind` = a copy of it); in the model an object is `Val.obj id kind` and nothing but the driver's `I<i>:<k>` return "
+    "form looks at `id`",
+    "the class names the factories derive (hash of a specification, __name__ of a dataclass) are run-time facts observed "
+    "on the implementation and fed to the model as `regkey`; the defining objects are numbered by the harness",
 ]
 ASSUMPTIONS = [
     "parameters are positional-or-keyword (no *args/**kwargs/positional-only/keyword-only); supplied values and "
     "defaults conform to the annotations and are never NOT_DATA; the source of the function is available",
-    "values are immutable; the wrapped function is deterministic",
+    "values are not mutated (a shared mutable default is the same object in every instance and in the bare function, "
+    "which is what is checked; what mutation would then do is Python's business); the wrapped function is deterministic",
+    "'with the parameter's default' is read as: the input channel (class-level preview, instance `default`, initial "
+    "`value`) holds the default OBJECT of the signature / dataclass field / specification, `held is default`; the "
+    "product of a default_factory is compared with what Python's own dataclass call puts into the field (by value, and by "
+    "identity when the factory hands out a shared object)",
     "pandas.DataFrame abstracted to its ordered columns (to_dict('list'))",
     "the oracle makes no demand on definitions outside the statement (reserved parameter names, repeated labels, a "
     "second return statement with scraping/validation, a return annotation whose tuple length does not fit) nor on "
@@ -623,6 +646,7 @@ def gen_xf_case(rng, tier, idx, kind=None, n=None):
             # values generated for the class under test; type checking of values is C04's business)
             case["prior_fields"] = [[x, "object", "v", f"i{900 + j}"] for j, x in enumerate(rng.sample(NAMES, pn))]
             case["api"] = "factory"
+            case["how"] = "decorator"  # (`how: prior` goes through as_dataclass_node, which empties the registry entry)
         params = [{"name": x, "ann": a, "default": d, "alts": alts.get(x)} for x, a, _k, d in fields]
         case["runs"] = [gen_run(rng, ctr, params) for _ in range(nruns)]
     return case
@@ -669,10 +693,14 @@ def gen_cases(rng, tier):
            "lines": ["call 0", "inst x", "def fn q", "def dc 2", "param", "again", "frobnicate 1 2",
                      "def list 1", "inst 1 tuple(i1", "call 0 =", "inst 0", "call 1 i1 item_0", "call 2 i1",
                      "retstmt bare", "def fn 2 - t0", "def fn 1 - t0", "retann - x", "retelt x", "param a -", "io",
-                     "retstmt frob", "show"],
+                     "retstmt frob", "show",
+                     "cfg 0 0", "cfg 0 0 0 2", "regkey D", "regkey D x", "def fn 1 - I0", "def fn 1 - I0:x",
+                     "def list 1", "inst 1 @7", "inst 1 @x.marker", "inst 1 @7.", "inst 1 @7.marker"],
            "expect": ["bad-op"] * 7 + ["def ok ins=[item_0:-=ND] outs=[list:builtins.list]", "bad-op", "bad-op",
                                        "inst ok ins=[item_0=ND]", "bad-op", "bad-op"]
-                     + ["bad-op"] * 2 + ["bad-op"] * 5 + ["def ok ins=[] outs=[None:builtins.NoneType]"]}
+                     + ["bad-op"] * 2 + ["bad-op"] * 5 + ["def ok ins=[] outs=[None:builtins.NoneType]"]
+                     + ["bad-op"] * 6 + ["def ok ins=[item_0:-=ND] outs=[list:builtins.list]"] + ["bad-op"] * 3
+                     + ["inst ok ins=[item_0=@7.marker]"]}
 
 
 def corpus():
@@ -1571,7 +1599,7 @@ def oracle(case, r):
         elif rf.get("py_inst") is not None and rf["inst_ins"] != rf["py_inst"]:
             # one input per parameter WITH THE PARAMETER'S DEFAULT: a freshly built node holds, per parameter, the value
             # it was constructed with and else the default object itself (`held is default`, tokens are by identity)
-            ident = all(g == e or is_pool(e) for g, e in zip(rf["inst_ins"], rf["py_inst"]))
+            ident = all(g == e or (is_pool(e) and g != "ND") for g, e in zip(rf["inst_ins"], rf["py_inst"]))
             fails.append(_f(case, "default-identity" if ident else "inputs-at-construction",
                             f"{where}: after construction the inputs must hold {rf['py_inst']} (values passed, else the "
                             f"default objects), they hold {rf['inst_ins']}", **sfacts))
@@ -1627,7 +1655,7 @@ def _in_clause(got, exp, prefix):
         return f"{prefix}-inputs"
     if [g[2] for g in got] != [e[2] for e in exp]:
         # only defaults that are objects with an identity differ: the channel holds something else than THE default
-        if all(g[2] == e[2] or is_pool(e[2]) for g, e in zip(got, exp)):
+        if all(g[2] == e[2] or (is_pool(e[2]) and g[2] != "ND") for g, e in zip(got, exp)):
             return "default-identity"
         return f"{prefix}-inputs"
     return f"{prefix}-input-hints"
